@@ -248,6 +248,8 @@ class Interp:
         return a.dot_general(b, dims, True)
       return b.dot_general(a, dims, False)
     if name in ('scatter-add', 'scatter_add'):
+      if is_sym(ins[1]):
+        raise Unsupported(f'{name} with symbolic indices')
       return self.linear_fallback(prim, params, ins)
     if name == 'triangular_solve' and not is_sym(ins[0]):
       return self.linear_fallback(prim, params, ins)
@@ -255,6 +257,10 @@ class Interp:
       return _term.dynamic_slice(ins, params)
     if name == 'gather' and is_sym(ins[1]):
       return _term.gather_symbolic_index(ins, params)
+    if name == 'dynamic_update_slice' and any(is_sym(x) for x in ins[2:]):
+      return _term.dynamic_update_slice(ins, params)
+    if name in ('scatter', 'scatter-add', 'scatter_add', 'scatter-mul', 'scatter-min', 'scatter-max') and is_sym(ins[1]):
+      raise Unsupported(f'{name} with symbolic indices')
     if name == 'sort':
       raise Unsupported('sort on symbolic data')
     if name in STRUCTURAL:
